@@ -489,6 +489,9 @@ class SetAlg:
             return f_or(*[self.cond(x) for x in c[1:]])
         if h == "in":
             return self.member(c[1], c[2])
+        if h == "isinstance" and isinstance(c[2], tuple) and len(c[2]) > 1 and all(isinstance(k, str) for k in c[2]):
+            # isinstance(x, (A, B)) = isinstance(x, A) or isinstance(x, B)
+            return f_or(*[self.cond(("isinstance", c[1], (k,))) for k in sorted(c[2])])
         if h in ("eq", "ne", "lt", "le") and len(c) == 3:
             z = self._len_cond(h, c[1], c[2])
             if z is not None:
@@ -673,7 +676,7 @@ class SetAlg:
                 keep.append(a)
         if len(keep) > 12:
             return ("SETX", alpha_normalise(t))
-        tb = table(f, keep)
+        tb = _restrict(f, atoms, [atoms.index(a) for a in keep])
         if not keep:
             return EMPTY if not tb[0] else ("UNIVERSE",)
         if len(keep) == 1 and tb == (False, True) and keep[0][0] == "in" and keep[0][1] == x:
